@@ -852,7 +852,7 @@ def _pivot_search(chk, fb, f):
     for n in walk(f.body):
         if n["k"] == "DeclStmt":
             for d in n["decls"]:
-                if d["ty"] == "unsigned long" and d.get("init") is not None:
+                if d["ty"] in ("unsigned long", "const unsigned long") and d.get("init") is not None:
                     ws = [w for w in _assigns(f) if strip(kids(w)[0])["k"] == "DeclRefExpr" and strip(kids(w)[0])["decl"]["id"] == d["id"]]
                     if ws and all(f.enclosing(w, ("IfStmt",)) is not None for w in ws):
                         cands.append((d, ws))
